@@ -212,6 +212,14 @@ func checkC17(e *Engine, r *Report) {
 		gEq := eqGuards(vd, true, func(v ssa.Value) bool { return resolveLocal(v) == authP }, func(v ssa.Value) bool {
 			return hasFieldLoad(sliceFrom(v), "Params", "WhitelistedDeployers")
 		})
+		// the equality may be spelled slices.Contains(whitelist, authority)
+		gEq = append(gEq, boolCallGuards(vd, true, func(c *ssa.Call) bool {
+			fo := calleeObj(c)
+			if fo == nil || fo.Pkg() == nil || fo.Pkg().Path() != "slices" || fo.Name() != "Contains" || len(c.Call.Args) != 2 {
+				return false
+			}
+			return hasFieldLoad(sliceFrom(c.Call.Args[0]), "Params", "WhitelistedDeployers") && resolveLocal(c.Call.Args[1]) == authP
+		})...)
 		ok := len(gEq) > 0
 		n := 0
 		for _, ret := range returnsOf(vd) {
